@@ -52,6 +52,12 @@ def run_case(case, prop, props):
     counters["fw_" + case["opts"]["framework"]] = 1
     counters["layout_" + ("flat" if case["opts"]["flat"] else "nested")] = 1
     if prop in a.blocked and not mine:
+        if a.run is not None and not case["opts"]["flat"] and a.tab is None:
+            from .. import driver
+            if not driver.is_tree(a.run.registry):
+                counters["outside_claim_nested_non_tree"] = 1
+                return {"status": "outside", "why": "nested layout on a non-tree model graph (outside the claim of C03)",
+                        "witnesses": [], "counters": counters}
         return {"status": "blocked", "why": a.blocked[prop], "witnesses": [], "counters": counters,
                 "others": sorted({w["property"] + ":" + w["mechanism"] for w in a.w})}
     return {
